@@ -2,7 +2,7 @@
 import itertools
 from props.opt_common import *
 
-ENVS = ["x", "-5", "--a=b", "-", "--", "a=b", "=", "a;b", ";", "a;;b;", ";;", "a b", "\n", "\xc3\xa4", "-v", "--out", "0", "1",
+ENVS = ["dflt", "d1;d2", "d1", "x", "-5", "--a=b", "-", "--", "a=b", "=", "a;b", ";", "a;;b;", ";;", "a b", "\n", "\xc3\xa4", "-v", "--out", "0", "1",
         "true", "True", "TRUE", "on", "yes", "with", "y", "Y", "false", "off", "no", "without", "n", "N", "maybe", "tRUE", "yes ", " no", "2", "oN"]
 
 class C03(OptCheck):
